@@ -88,6 +88,10 @@ class ModeWrapper(KDDataset):
     @staticmethod
     def set_item(mode, item, batch, value):
         idx = mode.split(" ").index(item)
+        if not isinstance(batch, (list, tuple)):
+            # single item -> batch is not wrapped into a tuple (see get_item)
+            assert len(mode.split(" ")) == 1
+            return value
         return tuple(it if i != idx else value for i, it in enumerate(batch))
 
     @staticmethod
